@@ -182,6 +182,15 @@ def run_ops(case, drv) -> Outcome:
                     viol = viol or v('align_vectors', 'align_vectors rotation differs from scipy')
             else:
                 viol = viol or v('align-raises', f'align_vectors raises {res}')
+            # approx_equal: same decision as scipy for a sweep of tolerances around the actual angle between the rotations
+            ang = (sp * sq.inv()).magnitude() if nb else np.atleast_1d((sp * sq.inv()).magnitude())
+            for atol in (float(np.min(ang)) * 0.5, float(np.max(ang)) * 2 + 1e-3):
+                st, ae = call(lambda atol=atol: p.approx_equal(q, atol=atol))
+                if st == 'ok':
+                    if np.atleast_1d(ae.numpy()).tolist() != np.atleast_1d(sp.approx_equal(sq, atol=atol)).tolist():
+                        viol = viol or v('approx_equal', f'approx_equal(atol={atol:.3g}) decides differently from scipy')
+                else:
+                    viol = viol or v('approx_equal-raises', f'approx_equal raises {ae}')
             # weighted: finite weights, and one infinite weight (that pair is aligned exactly, the others fix the twist)
             for kind in ('finite', 'inf'):
                 w = np.array([rng.uniform(0.3, 3) for _ in range(nb + 1)])
